@@ -43,6 +43,8 @@ func nilTestOfField(f *ssa.Function, fld *types.Var) []kit.Guard {
 }
 
 func checkC06(p *load.Program, r *kit.Report) {
+	r.Rule("STAMP-GUARDED", "GetTxRequests stamps LastRequested only behind contains(NodeIDs, nodeID)", 1)
+	checkStampBehindGuards(p, r, "STAMP-GUARDED")
 	r.Rule("FRESH-VECTOR", "every inventory vector added to a getdata message inside a loop is created in that iteration (AddInvVect keeps the pointer)", 2)
 	checkInvVectFresh(p, r, "FRESH-VECTOR")
 	r.Rule("CLAIM-IS-REQUESTED", "in handleInventory an item for which AddTxID answered true is put into the getdata message before the loop goes on (the entry is already stamped as requested from this peer)", 1)
